@@ -52,8 +52,17 @@ func TestC14(t *testing.T) {
 			pcfg["tlsCert"], pcfg["tlsKey"] = filepath.Join(d, "cert.pem"), filepath.Join(d, "key.pem")
 			pcfg["tlsRootCA"] = filepath.Join(d, "hostcert.pem")
 		}
+		var unset []string
 		if p.OldPlugin {
-			pcfg["unsetEnv"] = []string{"PLUGIN_MULTIPLEX_GRPC"}
+			unset = append(unset, "PLUGIN_MULTIPLEX_GRPC")
+		}
+		if p.ServerTLS == "ignorecert" {
+			// a plugin that does not know AutoMTLS (older library, other language, a runner that does not
+			// forward the variable): it answers without a certificate and serves plain text
+			unset = append(unset, "PLUGIN_CLIENT_CERT")
+		}
+		if len(unset) > 0 {
+			pcfg["unsetEnv"] = unset
 		}
 		if p.RawLine != "" {
 			pcfg = map[string]any{"mode": "raw", "lineHex": hex.EncodeToString([]byte(p.RawLine + "\n")), "after": "hang", "ctl": ""}
